@@ -35,8 +35,8 @@ let run (op_full : string) (a : string array) : string =
            let tv = match lazy_to_value lv with Ok v -> show_val v | Panic -> "panic" | Err _ -> "err" in
            "ok " ^ hex (lazy_to_vec lv) ^ "|" ^ al ^ "|" ^ tv
        | r -> show_res (fun _ -> "") r)
-  | "to_string" -> show_res hex (to_string_m (unhex a.(0)))
-  | "to_pretty_string" -> show_res hex (to_pretty_string_m (unhex a.(0)))
+  | "to_string" -> show_res hex (to_string_w (unhex a.(0)))
+  | "to_pretty_string" -> show_res hex (to_pretty_string_w (unhex a.(0)))
   | "compare" -> show_res (fun c -> "=" ^ show_cmp c) (compare_w (unhex a.(0)) (unhex a.(1)))
   | "cmp_value" -> "ok =" ^ show_cmp (cmp_value (parse_val a.(0)) (parse_val a.(1)))
   | "convert_to_comparable" -> show_res hex (comparable_w (unhex a.(0)) prefix)
